@@ -25,9 +25,14 @@ PayloadOf(obs) == {<<obs.payload[i][1], obs.payload[i][2]>> : i \in 1..Len(obs.p
 \* (the harness numbers nonces by first occurrence; nseen = distinct nonces before this build)
 FreshNonce(obs) == obs.nonce = 0 \/ obs.nonce = obs.nseen + 1
 
+\* the token of a batteries-included builder under PasetoParser::default()
+PreludeRead(b, obs) ==
+  (obs.res = "ok" /\ b.layer = "prelude" /\ "pread" \in DOMAIN obs /\ obs.pread # "na") => obs.pread = DefaultParserVerdict(b)
+
 ObsAllowed(b, obs) ==
   /\ BuildAllowed(b, [res |-> obs.res, key |-> obs.key, payload |-> PayloadOf(obs)])
   /\ obs.res = "ok" => FreshNonce(obs)
+  /\ PreludeRead(b, obs)
 
 \* the builder after a build whose observed outcome was obs (the observation, not the
 \* model's own choice, decides between the two outcomes the latitude of C17 allows)
@@ -40,6 +45,7 @@ Why(b, obs) ==
   LET P == PayloadOf(obs) IN
   IF obs.res = "unreadable" THEN "C01 C02 built token is not accepted by the matching parser"
   ELSE IF obs.res = "ok" /\ ~FreshNonce(obs) THEN "C10 nonce repeated"
+  ELSE IF ~PreludeRead(b, obs) THEN "C01 C02 C11 C12 PasetoParser::default() on the built token: " \o obs.pread
   ELSE IF obs.res = "dup" /\ ~MayFail(b) THEN "C17 duplicate-claim error without a repeated key"
   ELSE IF obs.res = "dup" THEN "C17 error names a key that was not repeated"
   ELSE IF obs.res = "ok" /\ MustFail(b) THEN "C17 token built although a key was supplied twice (or after a failed build)"
